@@ -451,7 +451,7 @@ func ParseFetch(l *tok.Line) (*Fetch, bool) {
 		name := strings.ToUpper(ch[i].Tok.S)
 		i++
 		if i < len(ch) && ch[i].Bracket {
-			name += strings.ToUpper(ch[i].String())
+			name += strings.ToUpper(plain(ch[i]))
 			i++
 			if i < len(ch) && !ch[i].List && ch[i].Tok.Kind == tok.Atom && strings.HasPrefix(ch[i].Tok.S, "<") {
 				name += ch[i].Tok.S
@@ -474,4 +474,20 @@ func Num(n *tok.Node) (uint32, bool) {
 		return 0, false
 	}
 	return num(n.Tok)
+}
+
+// plain renders a section specification without string quoting, so that
+// BODY[HEADER.FIELDS ("Subject")] and BODY[HEADER.FIELDS (Subject)] compare equal.
+func plain(n *tok.Node) string {
+	if n.List || n.Bracket {
+		var parts []string
+		for _, c := range n.Children {
+			parts = append(parts, plain(c))
+		}
+		if n.Bracket {
+			return "[" + strings.Join(parts, " ") + "]"
+		}
+		return "(" + strings.Join(parts, " ") + ")"
+	}
+	return n.Tok.S
 }
